@@ -104,6 +104,7 @@ def _norm_msg(e):
 
 
 PERM_SEED = 0
+TTY = False
 _CALLS = [0]
 
 
@@ -137,7 +138,7 @@ def op_cli(op):
     use_stdin, use_stdout = bool(op.get("stdin")), bool(op.get("stdout"))
     # the simulated process's working directory mirrors this tool process's (skewed) one
     w = World(stdin_data=op["text"].encode("utf-8") if use_stdin else None,
-              vcwd="/simfs/cwd" + os.getcwd().rstrip("/"))
+              vcwd="/simfs/cwd" + os.getcwd().rstrip("/"), tty=TTY)
     with w:
         if not use_stdin:
             w.fs.put(inp, op["text"].encode("utf-8"))
@@ -173,9 +174,11 @@ OPS = {"convert": op_convert, "cli": op_cli, "decode": op_decode}
 
 
 def main():
-    global PERM_SEED
+    global PERM_SEED, TTY
     PERM_SEED = int((hist.get("penv") or {}).get("perm_seed", 0))
+    TTY = bool((hist.get("penv") or {}).get("tty"))
     from sim import decsim
+    decsim.TTY_OF_PROCESS = TTY
     decsim.VCWD_OF_PROCESS = "/simfs/cwd" + os.getcwd().rstrip("/")
     deccheck.warm()
     import coco.b09.compiler  # noqa
